@@ -52,6 +52,9 @@ type Plan struct {
 	Final string
 	// Repeat: an injected packet is sent Repeat more times (kind "inject")
 	Repeat int
+	// Raw: Inject is the whole packet payload (no 0x00 marker in front): an ERR /
+	// EOF / OK packet of unusual shape
+	Raw bool
 }
 
 // NoFault is the plan of a clean non-blocking dump.
@@ -275,6 +278,12 @@ func (m *Master) stream(idx int, c Conn, log *ConnLog, plan Plan, d ref.DumpRequ
 		return true
 	}
 	evPayload := func(ev []byte) []byte { return append([]byte{0}, ev...) }
+	injPayload := func() []byte {
+		if plan.Raw {
+			return append([]byte{}, plan.Inject...)
+		}
+		return evPayload(plan.Inject)
+	}
 	for i, e := range served {
 		if i == plan.At {
 			switch plan.Kind {
@@ -330,18 +339,18 @@ func (m *Master) stream(idx int, c Conn, log *ConnLog, plan Plan, d ref.DumpRequ
 				}
 				return true
 			case "inject":
-				if !release(i, ref.Frame(seq, evPayload(plan.Inject))) {
+				if !release(i, ref.Frame(seq, injPayload())) {
 					return false
 				}
 				// a desynchronised dump: the same bytes once more, so that the
 				// reader already holds a second malformed packet when the first ends the stream
 				for k := 0; k < plan.Repeat; k++ {
-					if !release(i, ref.Frame(seq, evPayload(plan.Inject))) {
+					if !release(i, ref.Frame(seq, injPayload())) {
 						return false
 					}
 				}
 			case "replace":
-				if !release(i, ref.Frame(seq, evPayload(plan.Inject))) {
+				if !release(i, ref.Frame(seq, injPayload())) {
 					return false
 				}
 				continue
